@@ -196,6 +196,10 @@ def run_case(rng, res, riders, i):
 
         attempt("integrate-variable", lambda k=k: Integrate(g, Variable(k, to_domain(inputs[k])), frozenset([Variable(k, to_domain(inputs[k]))])), iref, rest, must_complete=False)
     sub = OrderedDict((k, inputs[k]) for k in inputs if k in ints or rng.random() < 0.7)
+    if rng.random() < 0.6:
+        # the integrand lists (some of) the same inputs in another order
+        ks = list(sub)
+        sub = OrderedDict((ks[i], sub[ks[i]]) for i in rng.permutation(len(ks)))
     if any(dm[0] == "real" for dm in sub.values()):
         spec2 = random_gaussian(rng, sub)
         h = spec2.build()
